@@ -31,7 +31,7 @@ func (c03) Components() map[string][]string {
 	}
 }
 func (c03) ProbeNames() []string {
-	return []string{"wl-fat", "wl-table", "wl-partio", "fill-reached-refusal"}
+	return []string{"wl-fat", "wl-table", "wl-partio", "wl-ext4", "fill-reached-refusal"}
 }
 func (c03) Budget(tier string) (int, int, int) {
 	if tier == "thorough" {
@@ -40,7 +40,7 @@ func (c03) Budget(tier string) (int, int, int) {
 	return 50, 1 << 30, 120
 }
 
-var c03Workloads = []string{"fat", "fat", "fat", "table", "partio"}
+var c03Workloads = []string{"fat", "fat", "fat", "table", "partio", "ext4"}
 
 func (c03) Gen(r *core.Rng, tier string, idx int) *core.Trace {
 	wl := c03Workloads[idx%len(c03Workloads)]
@@ -54,6 +54,9 @@ func (c03) Gen(r *core.Rng, tier string, idx int) *core.Trace {
 		}
 	case "table":
 		t = genTableHistory(r, tier, idx)
+	case "ext4":
+		t = genExt4History(r, tier, idx, false)
+		t.Cfg["size"] = t.Cfg["size"]/512*512 + 512*r.Range(0, 7) // not a multiple of the block size
 	case "partio":
 		t = c13{}.Gen(r, tier, idx)
 	}
@@ -68,6 +71,8 @@ func (c03) Exec(t *core.Trace) *core.Result {
 		res = execTableHistory(t, "C03")
 	case "partio":
 		res = execPartitionIO(t, "C03")
+	case "ext4":
+		res, _ = execExt4History(t, "C03")
 	default:
 		res, _ = execFatHistory(t, "C03", false)
 	}
